@@ -127,7 +127,7 @@ def check(ctx, rep):
             rep.ob("R-SETTER", "_me_invoke_callbacks contains callback exceptions", False, "an exception from a callback escapes the dispatcher", where_of(inv), trace_of(p))
         resets = [e for e in p.evs("store") if q.self_field(e.d["target"], "_me_done_callbacks")]
         if p.status == "return":
-            rep.ob("R-SETTER", "_me_invoke_callbacks drops the callbacks after dispatch", len(resets) == 1 and resets[0].d["value"] == ("list", ()), "the callback list is not reset after dispatch (a second dispatch would call them again)", where_of(inv), trace_of(p))
+            rep.ob("R-SETTER", "_me_invoke_callbacks drops the callbacks after dispatch", len(resets) == 1 and q.deref(p, resets[0].d["value"]) == ("list", ()), "the callback list is not reset after dispatch (a second dispatch would call them again)", where_of(inv), trace_of(p))
     loops = [e for p in ps for e in p.evs("loop") if e.d[0] == "enter"]
     rep.ob("R-SETTER", "_me_invoke_callbacks iterates the private list", bool(loops) and all(e.d[1] == ("attr", ("param", "self"), "_me_done_callbacks") for e in loops), "", where_of(inv))
 
